@@ -10,6 +10,7 @@ DECIDED = ("R1 Tcb::send_buf grows only in tcp::poll_send, by min(buf.len(), sen
 NOT_DECIDED = "the numeric invariants over all interleavings (they follow from R1-R5 only together with arithmetic we do not prove)."
 DECIDED += "; R3 also: the window operand of the min chain is snd_wnd minus the bytes in flight"
 DECIDED += "; R7 snd_wnd follows only ACKs that are not behind snd_una; every data segment carries bytes (unsent, MSS and remaining window all tested > 0)"
+DECIDED += "; R1 / R2 also: the room is the cap minus the buffer's whole len(); R4 also: UDP and TCP choose the loopback MTU under the same predicate"
 ASSUMPTIONS = ["usize::min / saturating_sub semantics"]
 
 T = "turmoil_net::kernel::socket::Tcb::"
